@@ -71,4 +71,43 @@ def DistinctNames (m : Files) : Prop := (m.map (·.1)).Nodup
 
 instance (m : Files) : Decidable (DistinctNames m) := by unfold DistinctNames; exact inferInstance
 
+/-! ### Linear-time evaluation on a byte array
+
+`ConformsPack` / `Aligned32` above are evaluated on lists, which costs `O(offset)` per access:
+fine for the ordinary stream, hopeless for images of 32768–65535 files.  `fastCheck` evaluates the
+very same clauses (magic, count, three words per record, exact size, NUL-terminated encoded name
+inside the image, body inside the image, file address ≡ 0 mod 32) with `O(1)` access; the driver
+cross-checks it against the declarative definition on every large case of at most 300 files. -/
+
+def beWord (b : ByteArray) (off k : Nat) : Option Nat :=
+  if off + k ≤ b.size then
+    some ((List.range k).foldl (fun acc j => acc * 256 + (b.get! (off + j)).toNat) 0)
+  else none
+
+def holdsAt (b : ByteArray) (off : Nat) (x : Bytes) : Bool :=
+  decide (off + x.length ≤ b.size) && go x off
+where
+  go : Bytes → Nat → Bool
+    | [], _ => true
+    | v :: vs, o => b.get! o == v && go vs (o + 1)
+
+/-- The first violated clause of `ConformsPack enc img [file 0, …, file (n-1)] ∧ Aligned32 img n`,
+or `none` when all hold. -/
+def fastCheck (enc : Bytes → Option Bytes) (img : ByteArray) (n : Nat) (file : Nat → Bytes × Bytes) :
+    Option String := Id.run do
+  if n > 65535 then return some "more than 65535 files"
+  if beWord img 0 4 != some MAGIC then return some "magic"
+  if beWord img 4 2 != some n then return some "header count differs from the number of files"
+  for i in [0:n] do
+    let kv := file i
+    match beWord img (8 + 16 * i + 4) 4, beWord img (8 + 16 * i + 8) 4, beWord img (8 + 16 * i + 12) 4,
+        enc kv.1 with
+    | some nameAddr, some fileAddr, some size, some name =>
+      if size != kv.2.length then return some s!"record {i}: size"
+      if !holdsAt img nameAddr (name ++ [0]) then return some s!"record {i}: name not at its address"
+      if !holdsAt img fileAddr kv.2 then return some s!"record {i}: body not at its address"
+      if fileAddr % 32 != 0 then return some s!"record {i}: file address not a multiple of 32"
+    | _, _, _, _ => return some s!"record {i}: outside the image / name not encodable"
+  return none
+
 end Mila.Spec.Pack
